@@ -234,7 +234,8 @@ def close_workers(ctx):
 def run_case(ctx, w, case, subst=None):
     src = render(case, subst)
     steps = [["call", "/master", "set_policy", arg("write"), arg("scratch")],
-             ["load", "t/c01.c", src]]
+             ["load", "t/c01.c"]]
+    w.write("t/c01.c", src)     # real callers compile from files (the pre_text extension is a test-only path)
     for i in range(len(case["tests"])):
         steps.append(["call", "t/c01", "t%d" % i])
     return w.run(steps), src
